@@ -13,7 +13,16 @@ Reading of the property used here (DESIGN.md §C09):
   (`Pc.sameButMid`), which is stronger than the four items the property names (`Obs`).  The mid
   counter is *not* among them and does move on a rejected `set_remote_description`
   (`mid_counter_moves_on_rejected_remote_description`); it is compared with the code, not claimed.
-* Socket / ICE failures after the state transition (environment) are outside the model.
+* ENVIRONMENT. The direct modes (RTP, SDES-SRTP) bind their sockets inside `create_offer`,
+  `create_answer` and `set_remote_description` and report a bind failure *after* mids were
+  assigned / the description was applied and the state moved.  So the two full statements of the
+  property are FALSE for the current code: `state_refines_spec_witness`, `error_is_atomic_witness`
+  (concrete connection whose bind address is unusable; replayed on the implementation, recorded as
+  known findings `…:io-failure-after-apply`).  What holds is proved as
+  - `accepted_calls_follow_spec`, `forbidden_call_errs`, `error_is_atomic_signaling_checks`,
+    `closed_is_terminal`, `pranswer_keeps_state`, `rollback_refused`: in EVERY environment;
+  - `state_refines_spec_partial`, `error_is_atomic_partial`: under the named hypothesis `EnvOk`
+    (socket binds succeed) — all call/state pairs, all descriptions.
 
 The two statements that were false before the `fix:` commits are kept as witnesses about the
 pre-fix code (`RtcModel.Jsep.Legacy`).
@@ -22,6 +31,12 @@ import RtcModel.Lemmas.Jsep
 
 namespace RtcModel.Theorems.C09
 open RtcModel.Jsep
+
+/-- generated-constant obligation: the static payload types of `iana_static_rtp_params` are the
+RFC 3551 assignments the model's table (and the harness' static-payload descriptions) rely on -/
+theorem const_iana_static : RtcModel.Generated.ianaPtPcmu = 0 ∧ RtcModel.Generated.ianaPtPcma = 8 ∧
+    RtcModel.Generated.ianaPtG722 = 9 ∧ RtcModel.Generated.ianaPtG729 = 18 ∧
+    RtcModel.Generated.ianaClockG729 = 8000 ∧ RtcModel.Generated.rtpmapDefaultClock = 90000 := by decide
 
 /-! ### the spec machine -/
 
@@ -97,21 +112,30 @@ theorem remote_table_forbidden (s : SigState) (t : SdpType) (h : specStep s (.se
     ∀ s', remoteTransition s t ≠ .ok s' := by
   intro s' h'; rw [remote_table_refines_spec s s' t h'] at h; cases h
 
+/-- the named environment hypothesis: UDP socket binds succeed -/
+def EnvOk (pc : Pc) : Prop := pc.bindFails = false
+instance (pc : Pc) : Decidable (EnvOk pc) := by unfold EnvOk; infer_instance
+instance (pc : Pc) : Decidable (Inv pc) := by unfold Inv; infer_instance
+
 /-! ### one call -/
 
-theorem inv_new (m : Mode) : Inv (Pc.new m) := by intro h; cases h
+theorem inv_new (m : Mode) (b : Bool) : Inv (Pc.new m b) := by intro h; cases h
 
-/-- the invariant is kept by every call -/
+theorem closed_no_remote_transition (t : SdpType) (s' : SigState) : remoteTransition .closed t ≠ .ok s' := by
+  cases t <;> simp [remoteTransition]
+
+theorem closed_no_local_transition (t : SdpType) (s' : SigState) : localTransition .closed t ≠ .ok s' := by
+  cases t <;> simp [localTransition]
+
+/-- the invariant is kept by every call, in every environment -/
 theorem inv_step (pc : Pc) (c : Call) (hi : Inv pc) : Inv (step pc c).1 := by
   cases c with
   | createOffer =>
-    rcases createOffer_cases pc with ⟨e, h, _⟩ | ⟨_, _, h⟩
-    · simp only [step, h]; exact hi
-    · simp only [step]; rw [h]; exact hi
+    obtain ⟨hs, hp, _⟩ := createOffer_frame pc
+    intro h; simp only [step] at h ⊢; rw [hs]; exact hi (by rw [← hp]; exact h)
   | createAnswer =>
-    rcases createAnswer_cases pc with ⟨e, h⟩ | ⟨_, _, h⟩
-    · simp only [step, h]; exact hi
-    · simp only [step]; rw [h]; exact hi
+    obtain ⟨hs, hp, _⟩ := createAnswer_frame pc
+    intro h; simp only [step] at h ⊢; rw [hs]; exact hi (by rw [← hp]; exact h)
   | setLocal d =>
     rcases setLocal_cases pc d with ⟨e, h, _⟩ | ⟨s', ht, h⟩
     · simp only [step, h]; exact hi
@@ -119,19 +143,15 @@ theorem inv_step (pc : Pc) (c : Call) (hi : Inv pc) : Inv (step pc c).1 := by
       intro hp
       have hc : pc.sig = .closed := hi (by simpa using hp)
       rw [hc] at ht
-      cases hd : d.ty <;> simp [localTransition, hd] at ht
+      exact absurd ht (closed_no_local_transition _ _)
   | setRemote d =>
     simp only [step]
-    cases hr : (setRemote pc d).2 with
-    | ok =>
-      obtain ⟨s', ht, hs, _, _, hp, _⟩ := setRemote_ok pc d hr
-      intro hp'
-      have hc : pc.sig = .closed := hi (by rw [← hp]; exact hp')
-      rw [hc] at ht
-      cases hd : d.ty <;> simp [remoteTransition, hd] at ht
-    | err e =>
-      obtain ⟨_, hs, hp, _⟩ := setRemote_err pc d e hr
-      intro hp'; rw [hs]; exact hi (by rw [← hp]; exact hp')
+    obtain ⟨hp, _, _, _, _, hs⟩ := setRemote_frame pc d
+    intro hp'
+    have hc : pc.sig = .closed := hi (by rw [← hp]; exact hp')
+    rcases hs with hs | hs
+    · rw [hs]; exact hc
+    · rw [hc] at hs; exact absurd hs (closed_no_remote_transition _ _)
   | close =>
     simp only [step, close]
     split
@@ -140,92 +160,127 @@ theorem inv_step (pc : Pc) (c : Call) (hi : Inv pc) : Inv (step pc c).1 := by
   | addTransceiver k d => simp only [step, addTransceiver]; exact hi
   | dtlsStarted => simp only [step]; exact hi
 
-/-- **step_refines_spec** — one call, any connection, any description:
+/-- the environment is constant along a run -/
+theorem envok_step (pc : Pc) (c : Call) (hb : EnvOk pc) : EnvOk (step pc c).1 := by
+  unfold EnvOk at *
+  cases c with
+  | createOffer => simp only [step]; rw [(createOffer_frame pc).2.2.2.2.2.2.2]; exact hb
+  | createAnswer => simp only [step]; rw [(createAnswer_frame pc).2.2.2.2.2.2.2]; exact hb
+  | setLocal d =>
+    rcases setLocal_cases pc d with ⟨e, h, _⟩ | ⟨s', _, h⟩ <;> simp only [step, h] <;> simpa using hb
+  | setRemote d => simp only [step]; rw [(setRemote_frame pc d).2.2.2.2.1]; exact hb
+  | close => simp only [step, close]; split <;> exact hb
+  | addTransceiver k d => simpa [step, addTransceiver] using hb
+  | dtlsStarted => simpa [step] using hb
+
+/-- **accepted_calls_follow_spec** (full; every connection, description, environment):
 (1) a call the JSEP machine forbids returns an error;
-(2) an accepted call moves the reported state exactly as the machine prescribes;
-(3) a rejected call leaves the reported state unchanged. -/
-theorem step_refines_spec (pc : Pc) (c : Call) (hi : Inv pc) :
+(2) an accepted call moves the reported state exactly as the machine prescribes. -/
+theorem accepted_calls_follow_spec (pc : Pc) (c : Call) (hi : Inv pc) :
     (specStep pc.sig (verbOf c) = none → (step pc c).2.isErr = true) ∧
-    ((step pc c).2 = .ok → specStep pc.sig (verbOf c) = some (step pc c).1.sig) ∧
-    ((step pc c).2.isErr = true → (step pc c).1.sig = pc.sig) := by
+    ((step pc c).2 = .ok → specStep pc.sig (verbOf c) = some (step pc c).1.sig) := by
   cases c with
   | createOffer =>
     simp only [step, verbOf]
-    rcases createOffer_cases pc with ⟨e, h, _⟩ | ⟨hs, hok, h⟩
-    · rw [h]; simp [Res.isErr]
-    · rw [h]; simp [Res.isErr, hs, specStep]
+    cases hr : (createOffer pc).2 with
+    | ok =>
+      have hs := createOffer_ok_stable pc hr
+      rw [(createOffer_frame pc).1, hs]; simp [specStep]
+    | err e => simp [Res.isErr]
   | createAnswer =>
     simp only [step, verbOf]
-    rcases createAnswer_cases pc with ⟨e, h⟩ | ⟨hs, hok, h⟩
-    · rw [h]; simp [Res.isErr]
-    · rw [h]; simp [Res.isErr, hs, specStep]
+    cases hr : (createAnswer pc).2 with
+    | ok =>
+      have hs := createAnswer_ok_haveRemoteOffer pc hr
+      rw [(createAnswer_frame pc).1, hs]; simp [specStep]
+    | err e => simp [Res.isErr]
   | setLocal d =>
     simp only [step, verbOf]
     rcases setLocal_cases pc d with ⟨e, h, hno⟩ | ⟨s', ht, h⟩
     · rw [h]; simp [Res.isErr]
     · rw [h]
-      refine ⟨fun hf => absurd ht (local_table_forbidden _ _ hf s'), fun _ => ?_, fun hf => by simp [Res.isErr] at hf⟩
+      refine ⟨fun hf => absurd ht (local_table_forbidden _ _ hf s'), fun _ => ?_⟩
       simpa using local_table_refines_spec _ _ _ ht
   | setRemote d =>
     simp only [step, verbOf]
     cases hr : (setRemote pc d).2 with
     | ok =>
       obtain ⟨s', ht, hs, _⟩ := setRemote_ok pc d hr
-      refine ⟨fun hf => absurd ht (remote_table_forbidden _ _ hf s'), fun _ => ?_, fun hf => by simp [Res.isErr] at hf⟩
+      refine ⟨fun hf => absurd ht (remote_table_forbidden _ _ hf s'), fun _ => ?_⟩
       rw [hs]; exact remote_table_refines_spec _ _ _ ht
-    | err e =>
-      obtain ⟨_, hs, _⟩ := setRemote_err pc d e hr
-      simp [Res.isErr, hs]
+    | err e => simp [Res.isErr]
   | close =>
     simp only [step, verbOf, close]
-    refine ⟨fun hf => by simp [specStep] at hf, fun _ => ?_, fun hf => by simp [Res.isErr] at hf⟩
+    refine ⟨fun hf => by simp [specStep] at hf, fun _ => ?_⟩
     split
     · rename_i hp; simp [specStep, hi hp]
     · simp [specStep]
-  | addTransceiver k d => simp [step, verbOf, addTransceiver, specStep, Res.isErr]
-  | dtlsStarted => simp [step, verbOf, specStep, Res.isErr]
+  | addTransceiver k d => simp [step, verbOf, addTransceiver, specStep]
+  | dtlsStarted => simp [step, verbOf, specStep]
+
+/-- When sockets can be bound, a rejected call leaves the reported state unchanged
+(consequence of `error_is_atomic_partial` below; stated here for the refinement). -/
+theorem rejected_call_keeps_state_partial (pc : Pc) (c : Call) (hb : EnvOk pc)
+    (h : (step pc c).2.isErr = true) : (step pc c).1.sig = pc.sig := by
+  cases c with
+  | createOffer => exact (createOffer_frame pc).1
+  | createAnswer => exact (createAnswer_frame pc).1
+  | setLocal d =>
+    simp only [step] at h ⊢
+    rcases setLocal_cases pc d with ⟨e, h', _⟩ | ⟨s', _, h'⟩
+    · rw [h']
+    · rw [h'] at h; simp [Res.isErr] at h
+  | setRemote d =>
+    simp only [step] at h ⊢
+    cases hr : (setRemote pc d).2 with
+    | ok => rw [hr] at h; simp [Res.isErr] at h
+    | err e => exact (setRemote_err pc d e hb hr).2.1
+  | close => simp [step, Res.isErr] at h
+  | addTransceiver k d => simp [step, Res.isErr] at h
+  | dtlsStarted => simp [step, Res.isErr] at h
 
 /-! ### all call sequences -/
 
-/-- **state_refines_spec** — for every call sequence (any length, any descriptions, any transceiver
-configuration, any mode) the reported signaling state equals the state of the JSEP machine driven by
-the accepted calls, and no accepted call was one the machine forbids (`specRun` never hits `none`). -/
-theorem state_refines_spec (pc : Pc) (cs : List Call) (hi : Inv pc) :
+/-- **state_refines_spec_partial** — for every call sequence (any length, any descriptions, any
+transceiver configuration, any mode), when socket binds succeed: the reported signaling state
+equals the state of the JSEP machine driven by the accepted calls, and no accepted call was one the
+machine forbids (`specRun` never hits `none`). -/
+theorem state_refines_spec_partial (pc : Pc) (cs : List Call) (hi : Inv pc) (hb : EnvOk pc) :
     specRun pc.sig ((cs.map verbOf).zip (trace pc cs)) = some (run pc cs).sig := by
   induction cs generalizing pc with
   | nil => rfl
   | cons c cs ih =>
-    have hstep := step_refines_spec pc c hi
-    have ih' := ih (step pc c).1 (inv_step pc c hi)
+    have hstep := accepted_calls_follow_spec pc c hi
+    have ih' := ih (step pc c).1 (inv_step pc c hi) (envok_step pc c hb)
     simp only [List.map_cons, trace, List.zip_cons_cons, run, List.foldl_cons] at ih' ⊢
     cases hr : (step pc c).2 with
     | ok =>
       simp only [specRun]
-      rw [hstep.2.1 hr]
+      rw [hstep.2 hr]
       exact ih'
     | err e =>
       simp only [specRun]
-      rw [← hstep.2.2 (by simp [hr, Res.isErr])]
+      rw [← rejected_call_keeps_state_partial pc c hb (by simp [hr, Res.isErr])]
       exact ih'
 
 /-- … in particular from a new connection in any transport mode, after any setup. -/
 theorem state_refines_spec_new (m : Mode) (cs : List Call) :
     specRun .stable ((cs.map verbOf).zip (trace (Pc.new m) cs)) = some (run (Pc.new m) cs).sig :=
-  state_refines_spec (Pc.new m) cs (inv_new m)
+  state_refines_spec_partial (Pc.new m) cs (inv_new m false) rfl
 
 theorem inv_run (pc : Pc) (cs : List Call) (hi : Inv pc) : Inv (run pc cs) := by
   induction cs generalizing pc with
   | nil => exact hi
   | cons c cs ih => simp only [run, List.foldl_cons]; exact ih _ (inv_step pc c hi)
 
-/-- **forbidden_call_errs** — after any history, a call the JSEP machine forbids in the reached state
-returns an error. -/
-theorem forbidden_call_errs (m : Mode) (history : List Call) (c : Call)
-    (h : specStep (run (Pc.new m) history).sig (verbOf c) = none) :
-    (step (run (Pc.new m) history) c).2.isErr = true :=
-  (step_refines_spec _ c (inv_run _ history (inv_new m))).1 h
+/-- **forbidden_call_errs** (full) — after any history, in any mode and environment, a call the JSEP
+machine forbids in the reached state returns an error. -/
+theorem forbidden_call_errs (m : Mode) (env : Bool) (history : List Call) (c : Call)
+    (h : specStep (run (Pc.new m env) history).sig (verbOf c) = none) :
+    (step (run (Pc.new m env) history) c).2.isErr = true :=
+  (accepted_calls_follow_spec _ c (inv_run _ history (inv_new m env))).1 h
 
-/-- provisional answers keep the state -/
+/-- provisional answers keep the state (any environment, any outcome) -/
 theorem pranswer_keeps_state (pc : Pc) (d : Desc) (hd : d.ty = .pranswer) :
     (setLocal pc d).1.sig = pc.sig ∧ (setRemote pc d).1.sig = pc.sig := by
   constructor
@@ -233,82 +288,140 @@ theorem pranswer_keeps_state (pc : Pc) (d : Desc) (hd : d.ty = .pranswer) :
     · rw [h]
     · rw [h]; rw [hd] at ht
       cases hs : pc.sig <;> simp [localTransition, hs] at ht ⊢ <;> exact ht.symm
-  · cases hr : (setRemote pc d).2 with
-    | ok =>
-      obtain ⟨s', ht, hs, _⟩ := setRemote_ok pc d hr
-      rw [hs]; rw [hd] at ht
-      cases hs : pc.sig <;> simp [remoteTransition, hs] at ht ⊢ <;> exact ht.symm
-    | err e => exact (setRemote_err pc d e hr).2.1
+  · rcases (setRemote_frame pc d).2.2.2.2.2 with h | h
+    · exact h
+    · rw [hd] at h
+      cases hs : pc.sig <;> simp [remoteTransition, hs] at h ⊢ <;> exact h.symm
 
 /-- rollback is refused (as documented) and changes nothing at all -/
 theorem rollback_refused (pc : Pc) (d : Desc) (hd : d.ty = .rollback) :
     setLocal pc d = (pc, .err .notImplemented) ∧ setRemote pc d = (pc, .err .notImplemented) := by
   simp [setLocal, setRemote, validateType, hd]
 
-/-- `Closed` is terminal: every later state is `Closed`, whatever is called. -/
-theorem closed_is_terminal (pc : Pc) (cs : List Call) (hi : Inv pc) (hc : pc.sig = .closed) :
+/-- `Closed` is terminal: every later state is `Closed`, whatever is called, in any environment. -/
+theorem closed_is_terminal (pc : Pc) (cs : List Call) (hc : pc.sig = .closed) :
     (run pc cs).sig = .closed := by
   induction cs generalizing pc with
   | nil => exact hc
   | cons c cs ih =>
     simp only [run, List.foldl_cons]
-    refine ih _ (inv_step pc c hi) ?_
-    have h := step_refines_spec pc c hi
-    cases hr : (step pc c).2 with
-    | ok =>
-      have := h.2.1 hr
-      rw [hc] at this
-      cases hv : verbOf c <;> simp [specStep, hv] at this <;> exact this.symm
-    | err e => rw [h.2.2 (by simp [hr, Res.isErr])]; exact hc
+    refine ih _ ?_
+    cases c with
+    | createOffer => simp only [step]; rw [(createOffer_frame pc).1]; exact hc
+    | createAnswer => simp only [step]; rw [(createAnswer_frame pc).1]; exact hc
+    | setLocal d =>
+      rcases setLocal_cases pc d with ⟨e, h, _⟩ | ⟨s', ht, h⟩
+      · simp only [step, h]; exact hc
+      · rw [hc] at ht; exact absurd ht (closed_no_local_transition _ _)
+    | setRemote d =>
+      simp only [step]
+      rcases (setRemote_frame pc d).2.2.2.2.2 with h | h
+      · rw [h]; exact hc
+      · rw [hc] at h; exact absurd h (closed_no_remote_transition _ _)
+    | close => simp only [step, close]; split <;> simp [hc]
+    | addTransceiver k d => simpa [step, addTransceiver] using hc
+    | dtlsStarted => simpa [step] using hc
 
 /-! ### rejected calls change nothing -/
 
-/-- **error_is_atomic** (full) — a call that returns an error leaves the signaling state, both stored
-descriptions and every transceiver (mid, direction, payload map, extension map, and the list
-itself) exactly as they were; indeed everything except the mid counter. For every connection state,
-every call, every description. -/
-theorem error_is_atomic (pc : Pc) (c : Call) (e : Err) (h : (step pc c).2 = .err e) :
-    ((step pc c).1).sameButMid pc := by
+/-
+FULL STATEMENT (false for the current code, see `error_is_atomic_witness`):
+  theorem error_is_atomic (pc : Pc) (c : Call) (e : Err) (h : (step pc c).2 = .err e) :
+      Obs (step pc c).1 = Obs pc
+What is missing: the direct modes would have to bind their sockets before assigning mids /
+applying the description / moving the state (a restructuring of `build_description` and
+`set_remote_description`, not a guard-clause move).
+-/
+
+/-- **error_is_atomic_partial** — when socket binds succeed (`EnvOk`), for every connection state,
+every call and every description (hence every call/state pair): a call that returns an error
+leaves the signaling state, both stored descriptions and every transceiver (mid, direction, payload
+map, extension map, and the list itself) exactly as they were; indeed everything except the mid
+counter. -/
+theorem error_is_atomic_partial (pc : Pc) (c : Call) (e : Err) (hb : EnvOk pc)
+    (h : (step pc c).2 = .err e) : ((step pc c).1).sameButMid pc := by
   cases c with
   | createOffer =>
-    rcases createOffer_cases pc with ⟨e', h', _⟩ | ⟨_, hok, _⟩
+    rcases createOffer_cases pc hb with ⟨e', h', _⟩ | ⟨_, hok, _⟩
     · simp only [step, h']; exact Pc.sameButMid_refl pc
     · simp only [step] at h; rw [hok] at h; cases h
   | createAnswer =>
-    rcases createAnswer_cases pc with ⟨e', h'⟩ | ⟨_, hok, _⟩
+    rcases createAnswer_cases pc hb with ⟨e', h'⟩ | ⟨_, hok, _⟩
     · simp only [step, h']; exact Pc.sameButMid_refl pc
     · simp only [step] at h; rw [hok] at h; cases h
   | setLocal d =>
     rcases setLocal_cases pc d with ⟨e', h', _⟩ | ⟨s', _, h'⟩
     · simp only [step, h']; exact Pc.sameButMid_refl pc
     · simp only [step, h'] at h; cases h
-  | setRemote d => exact setRemote_err pc d e h
+  | setRemote d => exact setRemote_err pc d e hb h
   | close => simp [step] at h
   | addTransceiver k d => simp [step] at h
   | dtlsStarted => simp [step] at h
 
 /-- the property's own wording, as a corollary -/
-theorem error_is_atomic_obs (pc : Pc) (c : Call) (e : Err) (h : (step pc c).2 = .err e) :
-    Obs (step pc c).1 = Obs pc := by
-  obtain ⟨_, h2, _, h4, h5, h6, _⟩ := error_is_atomic pc c e h
+theorem error_is_atomic_partial_obs (pc : Pc) (c : Call) (e : Err) (hb : EnvOk pc)
+    (h : (step pc c).2 = .err e) : Obs (step pc c).1 = Obs pc := by
+  obtain ⟨_, h2, _, h4, h5, h6, _⟩ := error_is_atomic_partial pc c e hb h
   simp [Obs, h2, h4, h5, h6]
 
-/-- … and along every call sequence: the observable state after the sequence is the one obtained by
-dropping all rejected calls' effects (each rejected call is an identity on `Obs`). -/
-theorem error_is_atomic_run (pc : Pc) (cs : List Call) (c : Call) (e : Err)
+theorem envok_run (pc : Pc) (cs : List Call) (hb : EnvOk pc) : EnvOk (run pc cs) := by
+  induction cs generalizing pc with
+  | nil => exact hb
+  | cons c cs ih => simp only [run, List.foldl_cons]; exact ih _ (envok_step pc c hb)
+
+/-- … and along every call sequence: each rejected call is an identity on `Obs`. -/
+theorem error_is_atomic_partial_run (pc : Pc) (cs : List Call) (c : Call) (e : Err) (hb : EnvOk pc)
     (h : (step (run pc cs) c).2 = .err e) : Obs (run pc (cs ++ [c])) = Obs (run pc cs) := by
   simp only [run, List.foldl_append, List.foldl_cons, List.foldl_nil]
-  exact error_is_atomic_obs _ c e h
+  exact error_is_atomic_partial_obs _ c e (envok_run pc cs hb) h
 
-/-- Only a successful setter changes a description slot, and then to exactly the description passed. -/
-theorem descriptions_change_only_by_successful_setter (pc : Pc) (c : Call) :
+/-- **error_is_atomic_signaling_checks** — in EVERY environment: a call rejected by one of the
+signaling checks (wrong state, rollback, fingerprint missing / unsupported / malformed / changed,
+glare, no transceivers) — i.e. any error other than the socket layer's `Internal` — leaves
+everything but the mid counter untouched. (`create_answer`'s own `Internal` "no transceiver for
+mid" is covered by `error_is_atomic_partial`.) -/
+theorem error_is_atomic_signaling_checks (pc : Pc) (c : Call) (e : Err) (he : e ≠ .internal)
+    (h : (step pc c).2 = .err e) : ((step pc c).1).sameButMid pc := by
+  cases c with
+  | createOffer =>
+    rcases createOffer_err_general pc e h with h' | h'
+    · simp only [step, h']; exact Pc.sameButMid_refl pc
+    · exact absurd h' he
+  | createAnswer =>
+    rcases createAnswer_err_general pc e h with h' | h'
+    · simp only [step, h']; exact Pc.sameButMid_refl pc
+    · exact absurd h' he
+  | setLocal d =>
+    rcases setLocal_cases pc d with ⟨e', h', _⟩ | ⟨s', _, h'⟩
+    · simp only [step, h']; exact Pc.sameButMid_refl pc
+    · simp only [step, h'] at h; cases h
+  | setRemote d =>
+    rcases setRemote_err_general pc d e h with h' | h'
+    · exact h'
+    · exact absurd h' he
+  | close => simp [step] at h
+  | addTransceiver k d => simp [step] at h
+  | dtlsStarted => simp [step] at h
+
+/-- `set_local_description` is atomic in every environment (it never touches the socket layer). -/
+theorem set_local_error_is_atomic (pc : Pc) (d : Desc) (e : Err) (h : (setLocal pc d).2 = .err e) :
+    setLocal pc d = (pc, .err e) := by
+  rcases setLocal_cases pc d with ⟨e', h', _⟩ | ⟨s', _, h'⟩
+  · rw [h'] at h ⊢; simp at h; rw [h]
+  · rw [h'] at h; cases h
+
+/-- When socket binds succeed: only a successful setter changes a description slot, and then to
+exactly the description passed. -/
+theorem descriptions_change_only_by_successful_setter_partial (pc : Pc) (c : Call) (hb : EnvOk pc) :
     ((step pc c).1.loc ≠ pc.loc → ∃ d, c = .setLocal d ∧ (step pc c).2 = .ok ∧ (step pc c).1.loc = some d) ∧
     ((step pc c).1.rem ≠ pc.rem → ∃ d, c = .setRemote d ∧ (step pc c).2 = .ok ∧ (step pc c).1.rem = some d) := by
   cases c with
   | createOffer =>
-    rcases createOffer_cases pc with ⟨e', h', _⟩ | ⟨_, _, h'⟩ <;> simp only [step] <;> rw [h'] <;> simp
+    obtain ⟨_, _, hl, hr, _⟩ := createOffer_frame pc
+    exact ⟨fun hne => absurd hl hne, fun hne => absurd hr hne⟩
   | createAnswer =>
-    rcases createAnswer_cases pc with ⟨e', h'⟩ | ⟨_, _, h'⟩ <;> simp only [step] <;> rw [h'] <;> simp
+    obtain ⟨_, _, hl, hr, _⟩ := createAnswer_frame pc
+    exact ⟨fun hne => absurd hl hne, fun hne => absurd hr hne⟩
   | setLocal d =>
     rcases setLocal_cases pc d with ⟨e', h', _⟩ | ⟨s', _, h'⟩ <;> simp only [step] <;> rw [h'] <;> simp
   | setRemote d =>
@@ -318,7 +431,7 @@ theorem descriptions_change_only_by_successful_setter (pc : Pc) (c : Call) :
       obtain ⟨s', _, _, hrem, hloc, _⟩ := setRemote_ok pc d hr
       exact ⟨fun hne => absurd hloc hne, fun _ => ⟨d, rfl, rfl, hrem⟩⟩
     | err e =>
-      obtain ⟨_, _, _, hloc, hrem, _⟩ := setRemote_err pc d e hr
+      obtain ⟨_, _, _, hloc, hrem, _⟩ := setRemote_err pc d e hb hr
       exact ⟨fun hne => absurd hloc hne, fun hne => absurd hrem hne⟩
   | close => simp only [step, close]; split <;> simp
   | addTransceiver k d => simp [step, addTransceiver]
@@ -327,29 +440,59 @@ theorem descriptions_change_only_by_successful_setter (pc : Pc) (c : Call) :
 /-! ### non-vacuity and witnesses -/
 
 def audioSec (mid : String) (rtpmap : String) : Section :=
-  { kind := .audio, mid := mid.toList, dir := .sendrecv, formats := [], rtpmaps := [rtpmap.toList], extmaps := [] }
+  { kind := .audio, mid := mid.toList, dir := .sendrecv, formats := [], rtpmaps := [rtpmap.toList], extmaps := [],
+    addr4 := true, addrAny := true }
 def offerA : Desc := { id := 0, ty := .offer, eqKey := 0, fp := .sha256 0, sections := [audioSec "0" "111 opus/48000/2"] }
 def offerB : Desc := { id := 1, ty := .offer, eqKey := 1, fp := .sha256 1, sections := [audioSec "0" "0 PCMU/8000"] }
 def answerA : Desc := { id := 2, ty := .answer, eqKey := 2, fp := .sha256 0, sections := [audioSec "0" "111 opus/48000/2"] }
 def pcAudio : Pc := addTransceiver (Pc.new .webrtc) .audio .sendrecv
+/-- an RTP-mode connection whose configured bind address cannot be bound -/
+def pcRtpNoBind : Pc := addTransceiver (Pc.new .rtp true) .audio .sendrecv
 
 /-- the machine is exercised: a full offer/answer round trip, a rejected call in between -/
 example : (trace pcAudio [.createOffer, .setLocal offerA, .setLocal offerB, .setRemote answerA]) =
       [.ok, .ok, .err .invalidState, .ok] ∧
     (run pcAudio [.createOffer, .setLocal offerA, .setLocal offerB, .setRemote answerA]).sig = .stable ∧
-    (run pcAudio [.createOffer, .setLocal offerA]).sig = .haveLocalOffer := by decide
+    (run pcAudio [.createOffer, .setLocal offerA]).sig = .haveLocalOffer ∧
+    Inv pcAudio ∧ EnvOk pcAudio := by
+  decide
 
-/-- `error_is_atomic` is not vacuous: this rejected call carries a description that *would* change
-the transceiver (payload map 111/opus → 0/PCMU) if it were applied. -/
+/-- `error_is_atomic_partial` is not vacuous: this rejected call carries a description that *would*
+change the transceiver (payload map 111/opus → 0/PCMU) if it were applied. -/
 example : (step (run pcAudio [.createOffer, .setLocal offerA]) (.setLocal offerB)).2 = .err .invalidState ∧
+    EnvOk (run pcAudio [.createOffer, .setLocal offerA]) ∧
     (Legacy.setLocal (run pcAudio [.createOffer, .setLocal offerA]) offerB).1.trxs ≠
       (run pcAudio [.createOffer, .setLocal offerA]).trxs := by decide
 
+/-- **Witness: the full atomicity statement is false for the current code.** RTP mode, bind address
+unusable: `set_remote_description(offer)` applies the offer (state → HaveRemoteOffer, description
+stored, transceiver parameters set) and then returns the socket error; `create_offer` assigns the
+mids and then returns it. Replayed on the implementation: `r!/a0/srP0o`, `r!/a0/co`
+(known findings `atom:…:io-failure-after-apply`). -/
+theorem error_is_atomic_witness :
+    ¬ (∀ (pc : Pc) (c : Call) (e : Err), (step pc c).2 = .err e → Obs (step pc c).1 = Obs pc) := by
+  intro h
+  have := h pcRtpNoBind (.setRemote offerA) .internal (by decide)
+  revert this; decide
+
+theorem create_offer_error_after_mid_assignment :
+    (step pcRtpNoBind .createOffer).2 = .err .internal ∧
+    (step pcRtpNoBind .createOffer).1.trxs ≠ pcRtpNoBind.trxs := by decide
+
+/-- **Witness: the full refinement statement is false for the current code**, same input: the call
+is rejected, yet the reported state has moved to HaveRemoteOffer while the JSEP machine (which did
+not see an accepted call) is still in Stable. -/
+theorem state_refines_spec_witness :
+    ¬ (∀ (pc : Pc) (cs : List Call), Inv pc →
+        specRun pc.sig ((cs.map verbOf).zip (trace pc cs)) = some (run pc cs).sig) := by
+  intro h
+  have := h pcRtpNoBind [.setRemote offerA] (by decide)
+  revert this; decide
+
 /-- **Witness (before the first `fix:` commit)** — `set_local_description(offer)` in a state other
-than `Stable` returned an error *after* rewriting the transceiver's payload map:
-the full statement `error_is_atomic` was false for the code as it was. -/
+than `Stable` returned an error *after* rewriting the transceiver's payload map. -/
 theorem legacy_set_local_offer_wrong_state_mutates :
-    ∃ (pc : Pc) (d : Desc) (e : Err),
+    ∃ (pc : Pc) (d : Desc) (e : Err), EnvOk pc ∧
       (Legacy.setLocal pc d).2 = .err e ∧ (Legacy.setLocal pc d).1.trxs ≠ pc.trxs :=
   ⟨run pcAudio [.createOffer, .setLocal offerA], offerB, .invalidState, by decide⟩
 
@@ -357,7 +500,7 @@ theorem legacy_set_local_offer_wrong_state_mutates :
 carrying a different fingerprint was applied (`handle_reinvite`), the state moved to
 HaveRemoteOffer, and only then the call failed. -/
 theorem legacy_set_remote_fingerprint_error_after_transition :
-    ∃ (pc : Pc) (d : Desc) (e : Err),
+    ∃ (pc : Pc) (d : Desc) (e : Err), EnvOk pc ∧
       (Legacy.setRemote pc d).2 = .err e ∧ (Legacy.setRemote pc d).1.sig ≠ pc.sig ∧
       (Legacy.setRemote pc d).1.rem ≠ pc.rem ∧ (Legacy.setRemote pc d).1.trxs ≠ pc.trxs :=
   ⟨run pcAudio [.setRemote offerA, .createAnswer, .setLocal answerA, .dtlsStarted], offerB, .invalidState, by decide⟩
@@ -373,7 +516,7 @@ example :
 /-- Not part of the property's list, stated for transparency: the mid counter is advanced before the
 state check of `set_remote_description`, so it moves on a rejected call. -/
 theorem mid_counter_moves_on_rejected_remote_description :
-    ∃ (pc : Pc) (d : Desc) (e : Err),
+    ∃ (pc : Pc) (d : Desc) (e : Err), EnvOk pc ∧
       (setRemote pc d).2 = .err e ∧ (setRemote pc d).1.nextMid ≠ pc.nextMid :=
   ⟨Pc.new .rtp, { answerA with sections := [audioSec "7" "0 PCMU/8000"] }, .invalidState, by decide⟩
 
